@@ -157,7 +157,7 @@ Proof.
   split; [tw_crush|split; [cred_crush|deb_crush]].
 Qed.
 
-(* ---- PROPOSAL_FUND ---- guards: OLT (Validate), v > 0 (handler, 65cdcf3) *)
+(* ---- PROPOSAL_FUND ---- guards: OLT (Validate), v > 0 (handler, 782c385) *)
 Lemma proposal_fund_facts known cur f prop v ops : effect_proposal_fund known cur f prop v = Some ops ->
   no_creation (ops ++ fee_ops payer fp fee) /\ credits_ok (ops ++ fee_ops payer fp fee) /\
   takes_only_from (ops ++ fee_ops payer fp fee) [f; payer].
@@ -167,7 +167,7 @@ Proof.
   split; [tw_crush|split; [cred_crush|deb_crush]].
 Qed.
 
-(* ---- PROPOSAL_WITHDRAW_FUNDS ---- guards: OLT (Validate), v > 0 (handler, 7960770): only the funder's escrow is taken from *)
+(* ---- PROPOSAL_WITHDRAW_FUNDS ---- guards: OLT (Validate), v > 0 (handler, 19a3caa): only the funder's escrow is taken from *)
 Lemma proposal_withdraw_facts known cur f b prop v ops : effect_proposal_withdraw known cur f b prop v = Some ops ->
   no_creation (ops ++ fee_ops payer fp fee) /\ credits_ok (ops ++ fee_ops payer fp fee) /\
   takes_only_from (ops ++ fee_ops payer fp fee) [f; payer].
